@@ -80,7 +80,8 @@ type Case struct {
 	Files   []FileField `json:"files,omitempty"`  // payload == form: SetFileParam calls
 	Auth    string      `json:"auth"`             // none|op|default
 	GetBody int         `json:"getbody"`          // number of GetBody calls the auth writer makes
-	Observe string      `json:"observe"`          // direct: read req.Body; wire: req.Write + http.ReadRequest
+	Observe string      `json:"observe"`          // direct: read req.Body; wire: req.Write + http.ReadRequest; submit: Runtime.Submit with a capturing transport
+	Debug   bool        `json:"debug,omitempty"`  // observe == submit: Runtime.Debug on (dumps go to a silent logger)
 	Method  string      `json:"method"`
 }
 
